@@ -420,6 +420,8 @@ pub struct Property {
     /// Whether a hang inside a case is a violation of this property (totality clauses) or just an
     /// inconclusive run (exit 2).
     pub hang_is_violation: bool,
+    /// per-case wall clock limit in seconds (0 = default)
+    pub hang_limit_s: u64,
     pub probes: Vec<KnownProbe>,
 }
 
@@ -497,7 +499,7 @@ pub fn workers() -> usize {
         .max(1)
 }
 
-const HANG_LIMIT_S: u64 = 30;
+const DEFAULT_HANG_LIMIT_S: u64 = 30;
 
 struct HangWatch {
     // (start millis since epoch-of-run, data)
@@ -551,6 +553,8 @@ impl<'p> Runner<'p> {
     ) -> std::thread::JoinHandle<()> {
         let prop_id = self.prop.id;
         let hang_is_violation = self.prop.hang_is_violation;
+        #[allow(non_snake_case)]
+        let HANG_LIMIT_S = if self.prop.hang_limit_s == 0 { DEFAULT_HANG_LIMIT_S } else { self.prop.hang_limit_s };
         std::thread::spawn(move || {
             while !done.load(Ordering::Relaxed) {
                 std::thread::sleep(std::time::Duration::from_millis(250));
@@ -674,6 +678,10 @@ impl<'p> Runner<'p> {
                                     }
                                     Err(fl) => {
                                         if this.is_known(&fl.signature) {
+                                            if std::env::var("PBVERIF_SAVE_TOLERATED").is_ok() {
+                                                let p = write_replay(this.prop.id, &format!("{kind}"), &ReplayData::Tape(tape_vec.clone()), &fl);
+                                                eprintln!("tolerated case saved: {p}");
+                                            }
                                             if !failed.get() {
                                                 *tolerated
                                                     .borrow_mut()
